@@ -247,16 +247,18 @@ pub fn id_history_dfs(
     seed: &State,
     depth: usize,
     max_live: usize,
+    probe_c12: bool,
     stats: &mut IdDfsStats,
 ) -> Option<(Vec<String>, Failure)> {
     struct Ctx<'a> {
         verified: std::cell::RefCell<HashSet<String>>,
+        probe_c12: bool,
         base: Vec<&'a [NodeId]>,
         depth: usize,
         max_live: usize,
     }
     fn check(arena: &Arena<Payload>, ctx: &Ctx, extra: &[(NodeId, bool)], stats: &mut IdDfsStats) -> Option<Failure> {
-        for (slot, b) in ctx.base.iter().enumerate() {
+        for (slot, b) in ctx.base.iter().enumerate().filter(|_| !ctx.probe_c12) {
             // is_removed(id) reads the node stored at id's position: the verdict for the (tens of
             // thousands of) long-removed ids of a slot is re-evaluated whenever the complete
             // rendering of that node differs from every rendering it was evaluated under before
@@ -275,6 +277,33 @@ pub fn id_history_dfs(
                 }
             }
             ctx.verified.borrow_mut().insert(rendering);
+        }
+        // C12 probe: a removed id is refused by the checked inserts in either position
+        if ctx.probe_c12 {
+            if let Some((l, _)) = extra.iter().find(|(_, live)| *live) {
+                for (k, (rid, live)) in extra.iter().enumerate() {
+                    // only removed ids whose slot has not been recycled since (a stale id of a
+                    // recycled slot is documented misuse and addresses the new occupant)
+                    if *live || extra[k + 1..].iter().any(|(later, _)| usize::from(*later) == usize::from(*rid)) {
+                        continue;
+                    }
+                    for flip in [false, true] {
+                        let mut a = arena.clone();
+                        let (x, y) = if flip { (*rid, *l) } else { (*l, *rid) };
+                        let r = guarded(|| x.checked_append(y, &mut a));
+                        if matches!(r, Ok(Ok(()))) {
+                            return Some(Failure {
+                                props: crate::step::C12,
+                                judge: "removed-refused",
+                                shaping: false,
+                                sig: "removed-refused|id-history|-|removed-node-accepted".into(),
+                                detail: format!("{}.checked_append({}) returned Ok although {} was removed by an earlier call", fmt_id(Some(x)), fmt_id(Some(y)), fmt_id(Some(*rid))),
+                            });
+                        }
+                    }
+                }
+            }
+            return None;
         }
         for (id, live) in extra {
             stats.is_removed_checks += 1;
@@ -348,6 +377,7 @@ pub fn id_history_dfs(
     }
     let ctx = Ctx {
         verified: std::cell::RefCell::new(HashSet::new()),
+        probe_c12,
         base: seed.issued.iter().map(|i| i.base.as_slice()).collect(),
         depth,
         max_live,
